@@ -7,9 +7,9 @@
    and turns of that queue (one event each). *)
 From Coq Require Import ZArith List Bool.
 Import ListNotations.
-Require Import Verif.gen.BananaGen Verif.lib.Recv.
+Require Import Verif.lib.PyLite Verif.gen.BananaGen Verif.lib.Recv.
 Require Import Verif.gen.RequestsGen Verif.lib.Requests Verif.lib.RequestsProofs.
-Require Import Verif.lib.AnswerRecv Verif.lib.AnswerRecvProofs.
+Require Import Verif.lib.Token Verif.lib.AnswerRecv Verif.lib.AnswerRecvProofs Verif.lib.AnswerRecvE2E.
 Local Open Scope Z_scope.
 
 (* "nothing fires twice": for every interleaving, every Deferred has been fired at most once *)
@@ -290,7 +290,56 @@ Theorem C03_violation_fails_bound_request : forall c err h hv oc kids io ic, a_t
   a_st (fst (violation C c io ic)) = step (a_st c) (Fail h OViolation) /\
   a_disc (fst (violation C c io ic)) = a_disc c + (if io then 1 else 0) + lenZ kids + 1 - (if ic then 1 else 0).
 Proof. exact (violation_fails_bound_request C). Qed.
+(* BYTES TO FIRING, composed (review 2, finding 1): "fires ... with the method's result, with the remote failure".  From ANY
+   reachable idle receiver (any history js of operations and received chunks after which no token / sequence is half received),
+   for EVERY request id rid the table maps to a handle h and EVERY oracle that accepts the sequence, the bytes the translated
+   sender encoding (encode_stream: int2b128 / send_int of banana.py) writes for
+        OPEN n  "answer"  INT rid  body  CLOSE n
+   cut into ANY chunks make the receiver perform exactly [Complete h]: the request pending under rid fires with the result and
+   leaves the table, every other call, table entry, the eventual queue and the connection state are unchanged (`resolves`), and
+   the receiver is idle again.  Guards (each needed: lib/AnswerRecvE2E.v ..._refuted): 0 <= rid < 2^31 (a larger id is sent as
+   a LONGINT, which AnswerUnslicer.checkToken answers with BananaError); `accepts` = every question the receiver puts to the
+   oracle along the body is answered "accept" and the result is ready at the final CLOSE (otherwise: Violation -> the request
+   fails with the Violation; not ready -> nothing fires yet).  Body tokens: INT in [0, 2^31), STRING, nested OPEN..CLOSE to any
+   depth with as many index tokens as the oracle asks for; NEG / LONGINT / LONGNEG / FLOAT / VOCAB children are NOT covered. *)
+Theorem C03_answer_bytes_fire_result : forall cs voc js n rid h body bs chunks,
+  let s := fst (jrun (jinit cs voc) js) in
+  idle C s -> tbl_find rid (table (jst s)) = Some h -> small_int rid = true -> hdr_ok n = true ->
+  accepts C taste after false h n (a_cs (r_ctx s)) body ->
+  encode_stream (seq_tokens false n rid body) = Ok bs -> concat chunks = bs ->
+  let r := jrun s (map JData chunks) in
+  snd r = [Complete h] /\ idle C (fst r) /\ resolves (jst s) (jst (fst r)) h rid OResult.
+Proof. exact (answer_bytes_fire_result C taste after). Qed.
+
+(* ... and its twin: OPEN n "error" INT rid body CLOSE n performs exactly [Fail h ORemoteError] *)
+Theorem C03_error_bytes_fire_remote_failure : forall cs voc js n rid h body bs chunks,
+  let s := fst (jrun (jinit cs voc) js) in
+  idle C s -> tbl_find rid (table (jst s)) = Some h -> small_int rid = true -> hdr_ok n = true ->
+  accepts C taste after true h n (a_cs (r_ctx s)) body ->
+  encode_stream (seq_tokens true n rid body) = Ok bs -> concat chunks = bs ->
+  let r := jrun s (map JData chunks) in
+  snd r = [Fail h ORemoteError] /\ idle C (fst r) /\ resolves (jst s) (jst (fst r)) h rid ORemoteError.
+Proof. exact (error_bytes_fire_remote_failure C taste after). Qed.
+(* the two model layers agree (review 2, finding 2): a Violation below an answer OR an error sequence whose request id was read
+   fails exactly the bound request with the Violation -- at the byte level `Fail h OViolation`, at the operation level
+   `AnswerViolation rid` (never `Error rid`: the caller gets the Violation, not a remote failure) -- and Answer / Error rid are
+   Complete h / Fail h ORemoteError on the request the table holds under rid *)
+Theorem C03_violation_in_either_sequence : forall (c : actx C) err h hv oc kids io ic rid,
+  a_top c = UBody err h hv oc kids -> tbl_find rid (table (a_st c)) = Some h ->
+  snd (violation C c io ic) = [Fail h OViolation] /\
+  a_st (fst (violation C c io ic)) = step (a_st c) (AnswerViolation rid).
+Proof. exact (violation_in_either_sequence_is_AnswerViolation C). Qed.
 End Bytes.
+
+Theorem C03_wire_ops_are_request_ops : forall (s : st) rid h, tbl_find rid (table s) = Some h ->
+  step s (Answer rid) = step s (Complete h) /\
+  step s (Error rid) = step s (Fail h ORemoteError) /\
+  step s (AnswerViolation rid) = step s (Fail h OViolation).
+Proof. exact wire_ops_are_request_ops. Qed.
+Print Assumptions C03_wire_ops_are_request_ops.
+Print Assumptions C03_violation_in_either_sequence.
+Print Assumptions C03_answer_bytes_fire_result.
+Print Assumptions C03_error_bytes_fire_remote_failure.
 Print Assumptions C03_close_of_answer_completes.
 Print Assumptions C03_close_of_error_fails.
 Print Assumptions C03_violation_fails_bound_request.
